@@ -36,6 +36,11 @@ Supported subset (anything else raises Unsupported(function:line), which a check
     matches - NaN and values outside int included, where C is undefined - takes the default arm): a chain of tests, LARGEST label
     first, each arm running to its `break`, the statements after the switch under every arm; `goto L` where L labels the statement
     right after the enclosing loop leaves the loop, where L is a later statement of the function body it continues there;
+  * the `signed` option names functions whose objects of SIGNED integer type (`int sign`, `int *sign`, the `int` return value) are
+    carried in Z instead of nat, the unsigned ones staying nat: literals `1%Z`, unary minus, `+ - *` each followed by `zfits w`
+    (the result is an int: overflow is an error as elsewhere), comparisons in Z, `(a_real)sign` as `ofZ O sign`, arrays `list Z`,
+    conversions between the two kinds checked (a negative value to unsigned is None); a caller and a callee must agree on the
+    kind of every signed parameter (both listed or neither), else Unsupported;
   * the `externs` option maps C functions of reals that have their own tie elsewhere to the Gallina terms they are rendered as.
 Every function f becomes
 
@@ -59,6 +64,8 @@ Import ListNotations.
 
 (* a counter value that is representable in w bits; the generated programs stop (None) when a result is not *)
 Definition fits (w : N) (x : nat) : bool := (N.of_nat x <? 2 ^ w)%N.
+(* the same for a signed object carried in Z (functions translated with the `signed` option): -2^(w-1) <= x < 2^(w-1) *)
+Definition zfits (w : N) (x : Z) : bool := ((- 2 ^ (Z.of_N w - 1) <=? x) && (x <? 2 ^ (Z.of_N w - 1)))%Z.
 (* checked store m[i] := v; None = outside the array *)
 Definition upd {T} (m : list T) (i : nat) (v : T) : option (list T) :=
   if (i <? length m)%nat then Some (firstn i m ++ v :: skipn (S i) m) else None.
@@ -93,7 +100,7 @@ RESERVED = {"at", "as", "in", "fun", "let", "if", "then", "else", "end", "match"
             "fix", "cofix", "forall", "exists", "Type", "Prop", "Set", "fuel", "fits", "upd", "sub_", "blit", "blk_move", "blk_set",
             "tt", "true", "false", "Some", "None", "inl", "inr", "nat", "N", "Z", "list", "option", "length", "skipn", "firstn",
             "nth_error", "mod", "O", "S", "T", "add", "sub", "mul", "div", "opp", "abs", "sqrt", "ltb", "leb", "eqb", "ofZ", "ofD",
-            "fn1", "fn2", "zero", "one", "repeat", "negb", "andb", "orb", "fst", "snd", "pair"}
+            "fn1", "fn2", "zero", "one", "repeat", "negb", "andb", "orb", "fst", "snd", "pair", "zfits"}
 QUALS = ("const", "volatile", "restrict", "__restrict")
 
 
@@ -488,6 +495,7 @@ class Fn:
         self.fuel = list(opts.get("fuel") or [])
         self.helpers = opts.get("helpers") or {}              # name -> 'copy' | 'move' | 'set0' | 'set' (bodies checked in src/a.c)
         self.externs = opts.get("externs") or {}              # C function of reals -> Gallina term it is rendered as (tied elsewhere)
+        self.zmode = bool(opts.get("signed"))                 # signed integer objects are carried in Z (negative values represented)
         self.rkind = {}             # array name -> ('real', size) | ('int', w, signed): the type of its cells
         self.nullable = {}          # key of a pointer variable / member the function tests -> name of its `is null` flag
         self.region_null = {}       # array reached only through a nullable pointer -> that flag
@@ -549,7 +557,9 @@ class Fn:
                 raise Unsupported("%s: the array %s is reached through pointers to %s and to %s" % (self.name, name, self.rkind[name], kind))
 
     def ltype(self, region):
-        return "list T" if self.rkind[region][0] == "real" else "list nat"
+        if self.rkind[region][0] == "real":
+            return "list T"
+        return "list Z" if self.isz(self.rkind[region][1:]) else "list nat"
 
     # ---- values
     def to_real(self, v, n):
@@ -558,6 +568,8 @@ class Fn:
         if v[0] == "int":
             if v[3] is not None:
                 return "(ofZ O (%d))" % v[3] if v[3] < 0 else "(ofZ O %d)" % v[3]
+            if self.isz(v[2]):
+                return "(ofZ O %s)" % par(v[1])
             return "(ofZ O (Z.of_nat %s))" % par(v[1])
         if v[0] == "bool":                  # the int 0 / 1 a comparison yields, converted
             return "(if %s then (ofZ O %d) else (ofZ O %d))" % ((v[1], 0, 1) if v[2] else (v[1], 1, 0))
@@ -566,13 +578,40 @@ class Fn:
     def to_int(self, v, n):
         if v[0] != "int":
             self.bad("an integer value is needed, got %s" % v[0], n)
-        if v[3] is not None and v[3] < 0:
+        if v[3] is not None and v[3] < 0 and not self.isz(v[2]):
             self.bad("negative integer %d (not represented)" % v[3], n)
         return v[1]
 
+    def isz(self, ty):
+        return self.zmode and bool(ty[1])
+
+    def gint(self, ty):
+        return "Z" if self.isz(ty) else "nat"
+
+    def lit_term(self, v, ty):
+        if self.isz(ty):
+            return "(%d)%%Z" % v if v < 0 else "%d%%Z" % v
+        return str(v)
+
     def check_fits(self, term, ty, pre):
         w, s = ty
-        pre.append(("guard", "fits %d %s" % (w - 1 if s else w, par(term))))
+        if self.isz(ty):
+            pre.append(("guard", "zfits %d %s" % (w, par(term))))
+        else:
+            pre.append(("guard", "fits %d %s" % (w - 1 if s else w, par(term))))
+
+    def to_nat(self, v, n, pre):
+        """an integer value used as an array index / pointer step: a nat term"""
+        if v[0] != "int":
+            self.bad("an integer value is needed, got %s" % v[0], n)
+        if not self.isz(v[2]):
+            return self.to_int(v, n)
+        if v[3] is not None:
+            if v[3] < 0:
+                self.bad("negative index %d" % v[3], n)
+            return str(v[3])
+        pre.append(("guard", "(0 <=? %s)%%Z" % v[1]))
+        return "(Z.to_nat %s)" % v[1]
 
     def name_it(self, term, hint, pre):
         if re.fullmatch(r"[\w']+", term):
@@ -649,7 +688,7 @@ class Fn:
             ent, gp = ("real", nm), [("val", "(%s : T)" % nm)]
         elif t[0] == "int":
             nm = self.fresh(base)
-            ent, gp = ("int", nm, t[1:]), [("val", "(%s : nat)" % nm)]
+            ent, gp = ("int", nm, t[1:]), [("val", "(%s : %s)" % (nm, self.gint(t[1:])))]
         elif t[0] == "ptr" and t[1][0] in ("real", "int"):
             rname = re.sub(r"[^A-Za-z0-9_]", "_", self.region_of.get("%s.%s" % (self.struct_params[key[0]][2], key[1]), base))
             gp = []
@@ -708,7 +747,7 @@ class Fn:
             i = self.expr(n["inner"][1], env, pre)
             if p[0] != "ptr":
                 self.bad("subscript of a non-pointer", n)
-            return ("mem", p[1], self.addoff(p[2], self.to_int(i, n)))
+            return ("mem", p[1], self.addoff(p[2], self.to_nat(i, n, pre)))
         self.bad("lvalue %s" % k, n)
 
     def addoff(self, off, i):
@@ -818,7 +857,7 @@ class Fn:
             return self.expr(n["inner"][0], env, pre, hint)
         if k == "IntegerLiteral":
             t = self.ety(n)
-            return ("int", n["value"], t[1:], int(n["value"]))
+            return ("int", self.lit_term(int(n["value"]), t[1:]), t[1:], int(n["value"]))
         if k == "FloatingLiteral":
             return ("real", lit_float(n["value"]))
         if k == "DeclRefExpr":
@@ -827,7 +866,7 @@ class Fn:
                 if rd.get("name") not in self.tu.enums:
                     self.bad("enumeration constant %s of unknown value" % rd.get("name"), n)
                 t = self.ety(n)
-                return ("int", str(self.tu.enums[rd["name"]]), t[1:], self.tu.enums[rd["name"]])
+                return ("int", self.lit_term(self.tu.enums[rd["name"]], t[1:]), t[1:], self.tu.enums[rd["name"]])
             if rd.get("kind") == "FunctionDecl":
                 if rd.get("name") not in self.externs:
                     self.bad("function %s used as a value (not in the `externs` option)" % rd.get("name"), n)
@@ -885,14 +924,26 @@ class Fn:
                 self.bad("integral cast to %s" % (t,), n)
             w, s = t[1:]
             lim = 1 << (w - 1 if s else w)
+            lo = -lim if self.isz(t[1:]) else 0
             if v[3] is not None:
-                if not (0 <= v[3] < lim):
+                if not (lo <= v[3] < lim):
                     self.bad("constant %d does not fit the type it is converted to" % v[3], n)
-                return ("int", v[1], t[1:], v[3])
+                return ("int", self.lit_term(v[3], t[1:]), t[1:], v[3])
             sw, ss = v[2]
-            if (1 << (sw - 1 if ss else sw)) > lim:
-                self.check_fits(v[1], t[1:], pre)
-            return ("int", v[1], t[1:], None)
+            zs, zd = self.isz(v[2]), self.isz(t[1:])
+            term = v[1]
+            if zs and not zd:
+                pre.append(("guard", "(0 <=? %s)%%Z" % term))
+                term = self.name_it("(Z.to_nat %s)" % term, hint, pre)
+                if (1 << (sw - 1)) > lim:
+                    self.check_fits(term, t[1:], pre)
+            elif zd and not zs:
+                term = self.name_it("(Z.of_nat %s)" % par(term), hint, pre)
+                if (1 << (sw - 1 if ss else sw)) > lim:
+                    self.check_fits(term, t[1:], pre)
+            elif (1 << (sw - 1 if ss else sw)) > lim:
+                self.check_fits(term, t[1:], pre)
+            return ("int", term, t[1:], None)
         if ck == "FloatingToIntegral":
             v = self.expr(sub, env, pre)
             if v[0] != "real":
@@ -916,6 +967,13 @@ class Fn:
         base = what.replace("->", "_")
         if isinstance(key, tuple):
             self.bad("%s on a struct member" % op, n)
+        if cur[0] == "int" and self.isz(cur[2]):
+            old = cur[1]
+            new = self.fresh(base)
+            pre.append(("let", new, "(%s %s 1)%%Z" % (old, "+" if op == "++" else "-")))
+            self.check_fits(new, cur[2], pre)
+            env[key] = ("int", new, cur[2])
+            return ("int", old if post else new, cur[2], None)
         if cur[0] == "int":
             old = cur[1]
             if op == "++":
@@ -970,7 +1028,11 @@ class Fn:
             if v[0] == "real":
                 return ("real", "(opp O %s)" % v[1])
             if v[0] == "int" and v[3] is not None:
-                return ("int", "(-%d)" % v[3], v[2], -v[3])          # only as the operand of a conversion to real
+                return ("int", self.lit_term(-v[3], v[2]) if self.isz(v[2]) else "(-%d)" % v[3], v[2], -v[3])   # (nat mode: only under a conversion to real)
+            if v[0] == "int" and self.isz(v[2]):
+                t = self.name_it("(- %s)%%Z" % v[1], hint or "neg", pre)
+                self.check_fits(t, v[2], pre)
+                return ("int", t, v[2], None)
             self.bad("unary minus on an integer", n)
         self.bad("unary %s" % op, n)
 
@@ -991,11 +1053,11 @@ class Fn:
         b = self.expr(n["inner"][1], env, pre)
         if a[0] == "ptr" or b[0] == "ptr":
             if op == "+" and a[0] == "ptr" and b[0] == "int":
-                return ("ptr", a[1], self.addoff(a[2], self.to_int(b, n)))
+                return ("ptr", a[1], self.addoff(a[2], self.to_nat(b, n, pre)))
             if op == "+" and b[0] == "ptr" and a[0] == "int":
-                return ("ptr", b[1], self.addoff(b[2], self.to_int(a, n)))
+                return ("ptr", b[1], self.addoff(b[2], self.to_nat(a, n, pre)))
             if op == "-" and a[0] == "ptr" and b[0] == "int":
-                bt = self.to_int(b, n)
+                bt = self.to_nat(b, n, pre)
                 pre.append(("guard", "(%s <=? %s)" % (bt, a[2])))
                 return ("ptr", a[1], "(%s - %s)" % (a[2], bt))
             if op == "-" and a[0] == "ptr" and b[0] == "ptr":
@@ -1029,10 +1091,17 @@ class Fn:
             return ("int", "(%s %s %s)" % (at, op, bt), ty, None)
         if a[3] is not None and b[3] is not None:
             val = {"+": a[3] + b[3], "*": a[3] * b[3], "-": a[3] - b[3],
-                   "/": a[3] // b[3] if b[3] else None, "%": a[3] % b[3] if b[3] else None}.get(op)
-            if val is None or not (0 <= val < lim):
+                   "/": a[3] // b[3] if b[3] and a[3] >= 0 and b[3] > 0 else None,
+                   "%": a[3] % b[3] if b[3] and a[3] >= 0 and b[3] > 0 else None}.get(op)
+            if val is None or not ((-lim if self.isz(ty) else 0) <= val < lim):
                 self.bad("constant expression %d %s %d" % (a[3], op, b[3]), n)
-            return ("int", str(val), ty, val)
+            return ("int", self.lit_term(val, ty), ty, val)
+        if self.isz(ty):
+            if op not in ("+", "-", "*"):
+                self.bad("signed %s (only + - * are translated for signed objects)" % op, n)
+            t = self.name_it("(%s %s %s)%%Z" % (at, op, bt), hint or "t", pre)
+            self.check_fits(t, ty, pre)
+            return ("int", t, ty, None)
         if op in ("+", "*"):
             t = self.name_it("(%s %s %s)" % (at, op, bt), hint or "t", pre)
             self.check_fits(t, ty, pre)
@@ -1060,7 +1129,7 @@ class Fn:
         if cur[0] == "ptr":
             if rv[0] != "int" or op not in ("+", "-"):
                 self.bad("compound assignment %s= on a pointer" % op, n)
-            it = self.to_int(rv, n)
+            it = self.to_nat(rv, n, pre)
             if op == "+":
                 new = ("ptr", cur[1], self.addoff(cur[2], it))
             else:
@@ -1162,6 +1231,12 @@ class Fn:
                 return "(eqb O %s %s)" % (x, y), op == "!="
             elif a[0] == "int" and b[0] == "int":
                 x, y = self.to_int(a, n), self.to_int(b, n)
+                if self.isz(a[2]) != self.isz(b[2]):
+                    self.bad("comparison of a signed and an unsigned object", n)
+                if self.isz(a[2]):
+                    zc = {"<": "(%s <? %s)%%Z" % (x, y), ">": "(%s <? %s)%%Z" % (y, x), "<=": "(%s <=? %s)%%Z" % (x, y),
+                          ">=": "(%s <=? %s)%%Z" % (y, x), "==": "(%s =? %s)%%Z" % (x, y), "!=": "(%s =? %s)%%Z" % (x, y)}[op]
+                    return zc, op == "!="
             else:
                 self.bad("comparison of %s and %s" % (a[0], b[0]), n)
             if op == "<":
@@ -1184,7 +1259,7 @@ class Fn:
         if v[0] == "bool":
             return v[1], v[2]
         if v[0] == "int":
-            return "(%s =? 0)" % self.to_int(v, n), True
+            return ("(%s =? 0)%%Z" if self.isz(v[2]) else "(%s =? 0)") % self.to_int(v, n), True
         if v[0] == "real":
             return "(eqb O %s (ofZ O 0))" % v[1], True
         self.bad("truth value of a %s" % v[0], n)
@@ -1271,6 +1346,10 @@ class Fn:
     def call_translated(self, fname, sig, args, env, pre, n):
         if len(args) != len(sig["params"]):
             self.bad("call to %s with %d arguments" % (fname, len(args)), n)
+        if sig.get("zmode", False) != self.zmode and (any(sp["kind"] == "int" and sp["ty"][1] for sp in sig["params"]) or
+                                                      any(o[0] == "ret" and o[1] == "int" and o[2][1] for o in sig["outs"]) or
+                                                      any(k[0] == "int" and k[2] for k in sig["rkind"].values())):
+            self.bad("call to %s: signed integers are represented differently on the two sides (the `signed` option)" % fname, n)
         vals = [self.expr(a, env, pre) for a in args]
         rmap = {}                      # callee array -> caller array
 
@@ -1457,7 +1536,7 @@ class Fn:
 
         def test(val):
             if v[0] == "int":
-                return "(%s =? %d)" % (v[1], val)
+                return ("(%s =? %d)%%Z" if self.isz(v[2]) else "(%s =? %d)") % (v[1], val)
             x = v[1]
             if val >= 1:
                 return "(andb (leb O (ofZ O %d) %s) (ltb O %s (ofZ O %d)))" % (val, x, x, val + 1)
@@ -1606,6 +1685,8 @@ class Fn:
             return self.ltype(key[2:])
         if env[key][0] == "fun":
             return "(%s)" % " -> ".join(["T"] * (env[key][2] + 1))
+        if env[key][0] == "int":
+            return self.gint(env[key][2])
         return "T" if env[key][0] == "real" else "nat"
 
     def structural_counter(self, cond, inc, body, env, is_do):
@@ -1908,7 +1989,7 @@ class Fn:
             code = fill(code, fill_exit)
             st_ty = " * ".join(self.gtype(e_in, key) for key in ret_keys) if ret_keys else "unit"
             if box["ret"]:
-                rt = [self.ltype(r[2:]) for r in wr] + ([] if self.ret is None else ["T" if self.ret[0] == "real" else "nat"])
+                rt = [self.ltype(r[2:]) for r in wr] + ([] if self.ret is None else ["T" if self.ret[0] == "real" else self.gint(self.ret[1:])])
                 st_ty = "(%s) + (%s)" % (st_ty, " * ".join(rt) if rt else "unit")
             params = [head] + ["(%s : %s)" % (nm, self.gtype(e_in, key)) for nm, key in zip(ro_names + rd_names + wr_names + st_names, ro + rd + wr + state)]
             text = "Fixpoint %s {T : Type} (O : NumOps T) %s {struct %s} : option (%s) :=\n%s.\n" % (
@@ -1986,7 +2067,7 @@ class Fn:
             elif t[0] == "int":
                 nm = self.fresh(p["name"])
                 env[p["id"]] = ("int", nm, t[1:])
-                gparams.append("(%s : nat)" % nm)
+                gparams.append("(%s : %s)" % (nm, self.gint(t[1:])))
                 sigparams.append({"kind": "int", "ty": t[1:]})
                 order.append(("scalar", pi))
             elif t[0] == "ptr" and t[1][0] in ("real", "int"):
@@ -2058,10 +2139,12 @@ class Fn:
                 outs.append(("field", pidx[key[0]], key[1], "fun", None, t[1]))
             else:
                 outs.append(("field", pidx[key[0]], key[1], "int", None, t[1:]))
-            out_ty.append("T" if t[0] == "real" else ("(%s)" % " -> ".join(["T"] * (t[1] + 1)) if t[0] == "fun" else "nat"))
+            out_ty.append("T" if t[0] == "real" else ("(%s)" % " -> ".join(["T"] * (t[1] + 1)) if t[0] == "fun" else
+                                                      (self.gint(t[1:]) if t[0] == "int" else "nat")))
         if self.ret is not None:
             outs.append(("ret", self.ret[0], self.ret[1:] if self.ret[0] == "int" else (self.ret[1] if self.ret[0] == "fun" else None)))
-            out_ty.append("T" if self.ret[0] == "real" else ("(%s)" % " -> ".join(["T"] * (self.ret[1] + 1)) if self.ret[0] == "fun" else "nat"))
+            out_ty.append("T" if self.ret[0] == "real" else ("(%s)" % " -> ".join(["T"] * (self.ret[1] + 1)) if self.ret[0] == "fun" else
+                                                             self.gint(self.ret[1:])))
         field_regions = {}
 
         def fill_fret(h):
@@ -2116,7 +2199,7 @@ class Fn:
         text = "".join(a + "\n" for a in self.aux)
         text += cmt + "Definition %s {T : Type} (O : NumOps T) %s : option %s :=\n%s.\n" % (self.gen_name, " ".join(gtext), par(rty_s), render(code, 1))
         sig = {"gen": self.gen_name, "params": sigparams, "gparams": gorder, "outs": outs, "regions": list(self.regions),
-               "rconst": dict(self.rconst), "rkind": dict(self.rkind), "region_null": dict(self.region_null), "gtext": gtext,
+               "zmode": self.zmode, "rconst": dict(self.rconst), "rkind": dict(self.rkind), "region_null": dict(self.region_null), "gtext": gtext,
                "rtype": rty_s, "loops": self.nloop}
         return text, sig
 
@@ -2160,7 +2243,7 @@ def check_helpers(tu):
     return out, errs
 
 
-def translate(sources, include, cfg, regions=None, fuel=None, helpers_source=None, sigs=None, externs=None):
+def translate(sources, include, cfg, regions=None, fuel=None, helpers_source=None, sigs=None, externs=None, signed=()):
     """sources: [(absolute path, [function names])] in call order.  -> (Gallina text without the prelude, {name: error},
     {name: signature}).  regions: {function: {parameter or 'ctx.member': array name}}; fuel: {function: [term per loop or None]}."""
     sigs = sigs if sigs is not None else {}
@@ -2183,7 +2266,7 @@ def translate(sources, include, cfg, regions=None, fuel=None, helpers_source=Non
                 continue
             try:
                 f = Fn(tu.funcs[nm], tu, {"regions": (regions or {}).get(nm), "fuel": (fuel or {}).get(nm), "helpers": helpers,
-                                          "externs": externs})
+                                          "externs": externs, "signed": nm in set(signed or ())})
                 text, sig = f.translate()
                 out.append(text)
                 sigs[nm] = sig
